@@ -410,6 +410,13 @@ def poc_frechet_direct_path(force, ret_details=False):
     contact point. For shorter baselines, the contact point will
     be closer to the point of maximum indentation.
     """
+    if force.size < 2:
+        # nothing to evaluate (e.g. the force maximum is the first point);
+        # `compute_poc` falls back to the center of the data
+        if ret_details:
+            return np.nan, {}
+        else:
+            return np.nan
     x = np.linspace(0, 1, len(force), endpoint=True)
     y = (force - force.min()) / (force.max() - force.min())
 
